@@ -47,7 +47,7 @@ Dry-runs on a scratch copy (VERIF_REPO=/var/tmp/mC16, ./check C18 quick), all co
  M5  builtins.go any() unwraps pyFrozenList (a fix)      RED as designed: C18_table_today no longer checks; C18_builtins_lifted covers `any` from then on
 (results in the batch log; see final report)
 Results of M1-M3: concrete VIOLATION (class frozen-value-behaves-differently-unexplained); M4 green.
-After the repair f4a26c7 (list builtins go through asList):
+After the repair b818e89 (list builtins go through asList):
  R4  builtins.go sorted: asList(args[0]) -> args[0].(pyList)   RED  4 theorems no longer check (C18_table_today, C18_builtins_transparent, C18_fixed_builtin_sample, ...),
                                                                    table row of sorted flips; 32 oracle failures of class native-builtin-asserts-pylist, which are reported as a
                                                                    concrete failing input as soon as known_findings.json lists the class as fixed (at the time of the run it was still "known")
